@@ -398,10 +398,24 @@ def run(tier: str, seed: int) -> int:
         if i % 4 == 1:
             cases[-1]["regen"] = ["string-whitespace", "appended-type", "case-change"][(i // 4) % 3]
 
+    # the repository's own example schemas (and the schemas of its example clients) as fixed cases, for every target format
+    import glob as _glob
+    k = 0
+    for f in sorted(_glob.glob("/repo/tests/main/graphql_schemas/*/schema.graphql") + _glob.glob("/repo/tests/main/clients/*/schema.graphql")):
+        try:
+            text = open(f, encoding="utf-8").read()
+        except OSError:
+            continue
+        for t, names in targets[:3]:
+            cases.append({"seed": seed, "idx": 800000 + k, "target": t, "names": names, "size": "s", "tier": tier, "_sdl": text, "corpus": f.split("/")[-2]})
+            k += 1
+
     def on_result(case, res):
         r.add(case, res)
+        if case.get("corpus"):
+            r.count("corpus_cases")
         if res.status != "inconclusive":
-            r.mark_distinct(tuple(sorted(res.sets.get("features", []))))
+            r.mark_distinct(tuple(sorted(res.sets.get("features", []))) + ((case["corpus"], case["target"]) if case.get("corpus") else ()))
 
     core.run_forked(cases, worker, timeout_s=120, on_result=on_result)
     return r.finish()
